@@ -160,13 +160,18 @@ def old_draw(m, meta, trials=300):
         image.set_size(height=h)
         w, h = image.rendered_size
         pw, ph = rng.choice([w, w + rng.randint(0, 4)]), rng.choice([h, h, h + rng.randint(0, 3)])
+        arg_pw, arg_ph = pw, ph
+        if rng.random() < 0.3:
+            # a padding smaller than the render on an axis has no effect on that axis: the region is the render's own
+            arg_pw, arg_ph = rng.choice([pw, rng.randint(1, w)]), rng.choice([ph, rng.randint(1, h)])
+            pw, ph = max(arg_pw, w), max(arg_ph, h)
         ha, va = rng.choice(["<", "|", ">"]), rng.choice(["^", "-", "_"])
         repeat = rng.choice([1, 2])
         buf = _Tty()
         old = sys.stdout
         sys.stdout = buf
         try:
-            image.draw(ha, pw, va, ph, repeat=repeat, cached=rng.choice([True, False]))
+            image.draw(ha, arg_pw, va, arg_ph, repeat=repeat, cached=rng.choice([True, False]))
         finally:
             sys.stdout = old
         out = buf.getvalue()
@@ -183,7 +188,7 @@ def old_draw(m, meta, trials=300):
         if not vt.vis or vt.incomplete:
             errs.append("cursor hidden / incomplete sequence")
         if errs:
-            problems.append({"frames": nfr, "repeat": repeat, "render_size": (w, h), "draw": (ha, pw, va, ph), "start_row": r0, "failed": errs[:3]})
+            problems.append({"frames": nfr, "repeat": repeat, "render_size": (w, h), "draw": (ha, arg_pw, va, arg_ph), "start_row": r0, "failed": errs[:3]})
             break
     return {"reproduced": bool(problems), "input": "seeded random draws (old API) on the concrete VT model", "observed": problems[:2]}
 
